@@ -73,6 +73,8 @@ def convert_case(ib, model_u, c, salt):
         elif op == "switch":
             r = {"op": op, "pdt": o["pdt"]}
             active = o["pdt"]
+        elif op == "poke":
+            r = {"op": op, "pdt": o["pdt"], "pg": real_page(ib, o["pg"]) if o["lvl"] else list(TEMP), "lvl": o["lvl"], "bits": list(o["bits"])}
         else:
             raise vlib.Broken("unknown model op " + op)
         script.append(r)
@@ -115,6 +117,8 @@ def to_replay(events):
             script.append({"op": k})
         elif k == "switch":
             script.append({"op": k, "pdt": e["pdt"]})
+        elif k == "poke":
+            script.append({"op": k, "pdt": e["pdt"], "pg": e["pg"], "lvl": e["lvl"], "bits": e["bits"]})
         if e.get("fail"):
             script[-1]["fail"] = e["fail"]
     return {"kind": "c04", "U": u, "script": script}
@@ -144,6 +148,7 @@ def run(ctx):
         "nextAddrFn receives a host pointer shifted by the kernel; the harness applies the same shift to the virtual entry address and resolves it through the MMU (the shift amount itself is taken from the kernel's computation)",
         "leaf flag sets are drawn from all declared PageTableEntryFlag bits (0-9, 63; bit 7 is PAT on a 4K leaf); frame numbers are below 2^40 (52-bit physical addresses); huge-page UPPER-level entries are not generated; the zero-frame protection (C06) is switched off",
         "translations are observed on a per-case universe of pages (about 45: temp page, reservation window, identity run, pages sharing 0-3 upper-level tables, both canonical halves); new tables are inspected entry by entry",
+        "the environment ORs extra flag bits (user, PWT, PCD, accessed, dirty, global, NX; never bit 7) into recursive entries and present upper-level entries (raw poke, as the hardware / boot loader would); the active-space digest then decides 'bit for bit'",
         "PageDirectoryTable.Init writes through the temporary mapping: the harness hands Init the host alias of whatever frame the temporary page translates to after the real MapTemporary ran",
     ]
     ctx.rule = ("case = universe + sequence of map / unmap / map-region / identity-map / map-temporary / translate / pdt-init / switch "
@@ -162,7 +167,7 @@ def run(ctx):
         raws.append((ib, cfg, raw))
     bugs = ["NoClearNewTable", "NoRestoreRecursive"] if q else \
            ["NoClearNewTable", "NoRestoreRecursive", "StaleBitsOnRemap", "NoFlushOnUnmap", "NoFlushOnMap", "RegionCountUnrounded",
-            "UnmapHugeGuardHoisted", "LeafForcedPresent"]
+            "UnmapHugeGuardHoisted", "LeafForcedPresent", "RestoreRebuildsEntry"]
     for b in bugs:
         ctx.expect_model_violation(d, "MCPageTables", "MCPageTablesBug_" + b, timeout=300, workers=4)
 
